@@ -75,9 +75,18 @@ func c18Check(c c18Case) (string, bool, []string) {
 		names = append(names, "second ring built from the same list")
 	}
 	unevenSeen := false
-	for i := 0; i < c.nser; i++ {
-		ts := mkSeries(c.salt, i)
-		ra, err := replicasOf(a, c.tenant, ts, c.rf)
+	// the generated series plus boundary inputs at both ends of the hash space (ring wrap-around), only
+	// for ketama: hashmod has no ring.
+	edge := ringEdgeSeries()
+	if c.alg != receive.AlgorithmKetama {
+		edge = nil
+	}
+	for i := 0; i < c.nser+len(edge); i++ {
+		ts, tenant := mkSeries(c.salt, i), c.tenant
+		if i >= c.nser {
+			ts, tenant = edge[i-c.nser], ringEdgeTenant
+		}
+		ra, err := replicasOf(a, tenant, ts, c.rf)
 		if err != nil {
 			return fmt.Sprintf("series %s: %v", renderSeries(ts), err), false, nil
 		}
@@ -94,7 +103,7 @@ func c18Check(c c18Case) (string, bool, []string) {
 			perZone[e.AZ]++
 		}
 		for k, h := range rings {
-			rb, err := replicasOf(h, c.tenant, ts, c.rf)
+			rb, err := replicasOf(h, tenant, ts, c.rf)
 			if err != nil {
 				return fmt.Sprintf("series %s on the %s: %v", renderSeries(ts), names[k], err), false, nil
 			}
